@@ -370,7 +370,7 @@ def check(prop, tier, seed, replay=None):
     exe = build("default")
     cdir = corpus(seed)
     build_s = time.time() - t0
-    rdir = os.path.join(SCRATCH, "verif-e2d-%s-%d" % (prop, os.getpid()))
+    rdir = os.path.join(SCRATCH, "verif-e2d-%s-%07d" % (prop, os.getpid()))
     os.makedirs(rdir, exist_ok=True)
 
     def replay_cmd(path):
@@ -397,6 +397,7 @@ def check(prop, tier, seed, replay=None):
         run_wall += pool2.run()
         allres += pool2.results; crashes += pool2.crashes; internal += pool2.internal
 
+    dump_hashes(prop, allres)
     by_sig = {}
     steps = switches = memev = simns = 0
     faults, probes = {}, {}
